@@ -198,6 +198,19 @@ def cmd_probe_fresh(args):
     return 0
 
 
+def cmd_digest(args):
+    """Print {run index: event-log digest} for runs [0, n) (determinism test)."""
+    from sim import engine
+    engine.ensure_repo_on_path()
+    seed = int(os.environ.get("VERIF_SEED", "0") or 0)
+    agg = engine.run_batch(args.prop, seed, args.n, args.workers)
+    if agg["harness_errors"]:
+        print(json.dumps({"harness_errors": agg["harness_errors"][:3]}))
+        return 2
+    print(json.dumps({str(i): agg["logs"][i] for i in sorted(agg["logs"])}))
+    return 0
+
+
 def cmd_setup(args):
     from sim import engine
     pytrs = engine.ensure_repo_on_path()
@@ -231,6 +244,11 @@ def main():
     s.add_argument("which")
     s.add_argument("rest", nargs="*")
     s.set_defaults(fn=cmd_selftest)
+    dg = sub.add_parser("digest")
+    dg.add_argument("prop", choices=sorted(TIERS))
+    dg.add_argument("n", type=int)
+    dg.add_argument("--workers", type=int, default=1)
+    dg.set_defaults(fn=cmd_digest)
     pf = sub.add_parser("probe-fresh")
     pf.set_defaults(fn=cmd_probe_fresh)
     u = sub.add_parser("setup")
